@@ -1068,9 +1068,10 @@ class Generator:
     def no_identify(self, func: t.Callable[..., str], *args, **kwargs) -> str:
         original = self.identify
         self.identify = False
-        result = func(*args, **kwargs)
-        self.identify = original
-        return result
+        try:
+            return func(*args, **kwargs)
+        finally:
+            self.identify = original
 
     def normalize_func(self, name: str) -> str:
         if self.normalize_functions == "upper" or self.normalize_functions is True:
